@@ -50,8 +50,10 @@ def run(ctx):
         F = ctx.facts(b)
         probs = []
         seen = {'fwd': 0, 'inv': 0}
-        for c in b.calls():
-            a = [F.sym_operand(x) for x in c.args]
+        # private helpers of References are looked into: their map / set / list operations count as the function's own, with the
+        # helper's parameters replaced by what the function passes
+        for c in virtual_calls(ctx, b, F, '^' + re.escape(R) + r'(?!%s$)' % fn):
+            a = c.args
             if MAPOP.search(c.callee) and a:
                 m = _map_of(b, a[0])
                 if m is None:
@@ -121,12 +123,12 @@ def run(ctx):
                     if o[0] in ('cp', 'mv') and derives_from_difference(o[1][0], depth + 1, seen):
                         return True
             return False
-        rem = [c for c in b.calls() if SETOP.search(c.callee) and c.callee.endswith('::remove') and c.args and 'referenced_by_map' in fmt_sym(b, F.sym_operand(c.args[0]))]
+        rem = [c for c in virtual_calls(ctx, b, F, '^' + re.escape(R) + r'(?!delete_reference$)') if SETOP.search(c.callee) and c.callee.endswith('::remove') and c.args and 'referenced_by_map' in fmt_sym(b, c.args[0])]
         if not rem:
             r.lost(rule, 'inverse-remove', 'removal from an inverse set not found in delete_reference')
         for i, c in enumerate(rem):
             n += 1
-            setsym = F.sym_operand(c.args[0])
+            setsym = c.args[0]
             # key of the get_mut that produced the set
             keyroot = None
             def find_getmut(s_):
@@ -158,7 +160,7 @@ def run(ctx):
                 if il is not None and derives_from_difference(il):
                     ok = 'the key iterates over HashSet::difference(targets before, targets after)'
             if ok is None:
-                for l, e in F.literals_at(c.bb):
+                for l, e in F.literals_at(c.root_bb):
                     t = fmt_lit(b, l)
                     if re.search(r'Iterator::any\(.*\) == False$', t) or re.search(r'(contains|has_reference)\(.*\) == False$', t):
                         ok = 'guarded by `%s`' % t[:80]
@@ -170,7 +172,7 @@ def run(ctx):
                        'from inverse lookups)', loc=c.loc)
     # the removal predicate of delete_reference
     rule = 'delete-predicate'
-    cls = db.find_bodies(r'^' + re.escape(R) + r'delete_reference::\{closure#\d+\}$')
+    cls = db.find_bodies(r'^' + re.escape(R) + r'delete_reference(::\{closure#\d+\})+$')
     pred = [b for b in cls if b.locals[0] == 'bool']
     if len(pred) != 1:
         r.lost(rule, 'retain-closure', 'expected exactly one bool closure (the retain predicate) in delete_reference, found %d' % len(pred))
